@@ -3,7 +3,7 @@ import os, subprocess, tempfile, shutil
 import common, schema, histgen, refcbor, cborgen
 from concurrent.futures import ThreadPoolExecutor
 THEOREMS = ["C03_window", "C03_alloc_bounded", "C03_alloc_bounded_skip", "C03_alloc_bounded_strings", "C03_time_arith", "C03_index_checked",
-            "C03_params_index_checked", "C03_dname", "C03_fuel_partial", "C03_nonvacuous"]
+            "C03_params_index_checked", "C03_dname", "C03_fuel_partial", "C03_repeated_keys_as_the_code", "C03_nonvacuous"]
 EXTRA_PROPERTY_FILES = ("Properties_format",)   # obligations over the regenerated Gen_format.v (translator/format.py)
 TOOLS = True
 OPS = ["D pk", "D u", "D n", "D i", "D b", "D bs", "D ts", "D as", "D ms", "D br", "D sk"]
@@ -46,6 +46,9 @@ def mutants(files, rng, n):
             pos = rng.randrange(len(f)); d = rng.choice([2000, 60000]); m = f[:pos] + cborgen.nest(d, rng.choice(["arr1", "iarr", "tag", "map1"])) + f[pos:]
             if d > 2000: DEEP.add(m)
         elif r < 0.85: m = bytes(rng.getrandbits(8) for _ in range(rng.choice([0, 1, 10, 200])))
+        elif r < 0.93:
+            try: m = refcbor.encode(refcbor.repeat_key(refcbor.parse_all(f), rng))
+            except Exception: m = f
         else: m = f
         res.append(m)
     return res
@@ -99,6 +102,15 @@ def run(ctx):
             exact.append({"id": "E%d" % n, "script": ["D new %s %s" % (rng.choice(["ss", "fs"]), v.hex()), "D as", "D ts", "D sk", "D as", "D sk", "D sk", "D u", "D rest"],
                           "expect": None, "meta": {"kind": "decoder-ops/multi-window"}})
             n += 1
+    # (f) single structures whose map repeats one key (invalid CBOR): what each of the 19 readers makes of it - the last occurrence wins, vectors
+    #     cleared first - is compared exactly with the model (whole Blocks with repeated keys are among the file mutants above)
+    import p_C08
+    for i in range(150 if tier == "quick" else 5000):
+        nm = p_C08.NAMES[i % len(p_C08.NAMES)]; t = sch[nm]
+        v = schema.gen_val(t, rng, small=True)
+        try: r = refcbor.encode(refcbor.repeat_key(refcbor.parse_all(schema.enc(t, v, rng)), rng))
+        except Exception: continue
+        exact.append({"id": "k%d" % i, "script": ["S r %s %s" % (nm, r.hex())], "expect": None, "meta": {"kind": "struct-repeated-key"}})
     # (c) renderers on arbitrary strings (implementation only: no sanitizer report, no crash)
     rend = []
     names = [b"\x14" + b"a" * 19, b"\x01", b"\x03www", b"\x03www\x00", b"\xff", b"\x00", b"", b"\x01a\x3f" + b"b" * 10, b"\x05ab"]
@@ -142,5 +154,7 @@ def run(ctx):
         "(integers -> boundary values incl. out-of-range indices and 2^64-1 counts, members dropped / duplicated, definite <-> indefinite, wrong "
         "types, tags), byte flips, truncation, allocation bombs (length 2^36, 2^64-1), nesting depth 2000 / 60000 - under ASan+UBSan with a 1 MiB "
         "stack and a 256 MiB allocation cap, outcome compared with the model up to the exception class; (c) renderers on arbitrary names / "
-        "addresses; (d) the five tools on mutants: exit 0, no sanitizer report", diffs, fails)
+        "addresses; (d) the five tools on mutants: exit 0, no sanitizer report; (e) inputs longer than the decoder window cut inside long strings / with "
+        "inflated lengths; (f) maps that repeat one key - whole files (8% of the mutants) and each of the 19 structures - what the reader makes of them "
+        "(the block's item vectors and tables append, everything else: last occurrence) compared exactly with the model", diffs, fails)
     return {"diffs": diffs, "fails": fails, "to_script": lambda c: common.case_script(c)}
